@@ -170,3 +170,146 @@ theorem not_mem_intercalate (sep a : Nat) (xs : List Str) (hne : a ≠ sep)
       refine ⟨⟨h x (by simp), by simpa using hne⟩, ih (fun z hz => h z (by simp [hz]))⟩
 
 end Tabula.Sheet
+
+/-! ## the merge loop and its budget -/
+namespace Tabula.Sheet
+
+/-- **the regions the merge loop applies**, from the region list and the grid dimensions only:
+the longest prefix of the list whose clipped areas fit the budget (`applied_prefix`,
+`applied_fits`, `applied_maximal`) -/
+def appliedPrefix (nrows ncols : Nat) : List Region → Nat → List Region
+  | [], _ => []
+  | m :: ms, budget =>
+    if clipArea nrows ncols m > budget then []
+    else m :: appliedPrefix nrows ncols ms (budget - clipArea nrows ncols m)
+
+/-- sum of the clipped areas of a list of regions -/
+def areaSum (nrows ncols : Nat) (ms : List Region) : Nat := (ms.map (clipArea nrows ncols)).sum
+
+/-- the rows of the clipped rectangle: the iterations of the outer (row) loop of the merge pass
+for a region that is walked -/
+def clipRows (nrows : Nat) (m : Region) : Nat := min (m.er + 1) nrows - m.sr
+
+/-- the columns of the clipped rectangle -/
+def clipCols (ncols : Nat) (m : Region) : Nat := min (m.ec + 1) ncols - m.sc
+
+theorem clipArea_eq (nrows ncols : Nat) (m : Region) :
+    clipArea nrows ncols m = clipRows nrows m * clipCols ncols m := rfl
+
+/-- **the regions the merge loop walks**: those of the applied prefix with a cell inside the grid
+(since the fix "merged regions with no cell inside the grid are skipped" no loop runs for the
+others) -/
+def walkedPrefix (nrows ncols : Nat) (ms : List Region) (budget : Nat) : List Region :=
+  (appliedPrefix nrows ncols ms budget).filter fun m => decide (clipArea nrows ncols m > 0)
+
+/-- the merge loop calls `mark` for exactly the walked regions, in order -/
+theorem mergeLoop_eq_foldl_walked (mark : Grid → Region → Grid) (nrows ncols : Nat) (ms : List Region)
+    (budget : Nat) (g : Grid) :
+    mergeLoop mark nrows ncols ms budget g = (walkedPrefix nrows ncols ms budget).foldl mark g := by
+  unfold walkedPrefix
+  induction ms generalizing budget g with
+  | nil => rfl
+  | cons m ms ih =>
+    simp only [mergeLoop, appliedPrefix, clipArea]
+    by_cases hz : min (m.er + 1) nrows - m.sr = 0 ∨ min (m.ec + 1) ncols - m.sc = 0
+    · have hz' : (min (m.er + 1) nrows - m.sr) * (min (m.ec + 1) ncols - m.sc) = 0 := Nat.mul_eq_zero.mpr hz
+      simp only [hz, if_true, hz', Nat.not_lt_zero, gt_iff_lt, if_false, Nat.sub_zero, List.filter_cons,
+        clipArea, Nat.lt_irrefl, decide_false, Bool.false_eq_true]
+      exact ih _ _
+    · have hpos : (min (m.er + 1) nrows - m.sr) * (min (m.ec + 1) ncols - m.sc) > 0 := by
+        rcases Nat.eq_zero_or_pos ((min (m.er + 1) nrows - m.sr) * (min (m.ec + 1) ncols - m.sc)) with h | h
+        · exact absurd (Nat.mul_eq_zero.mp h) hz
+        · exact h
+      simp only [hz, if_false]
+      by_cases hgt : (min (m.er + 1) nrows - m.sr) * (min (m.ec + 1) ncols - m.sc) > budget
+      · simp only [hgt, if_true, List.filter_nil, List.foldl_nil]
+      · simp only [hgt, if_false, List.filter_cons, clipArea, hpos, decide_true, if_true, List.foldl_cons]
+        exact ih _ _
+
+/-- the merge loop marks the regions of `appliedPrefix`, in order — for a `mark` that does nothing
+for a region without a cell in the grid (the regions the loop skips), on the grids `P` it meets -/
+theorem mergeLoop_eq_foldl (mark : Grid → Region → Grid) (nrows ncols : Nat) (P : Grid → Prop)
+    (hP : ∀ g m, P g → P (mark g m))
+    (hneutral : ∀ g m, P g → clipArea nrows ncols m = 0 → mark g m = g)
+    (ms : List Region) (budget : Nat) (g : Grid) (hg : P g) :
+    mergeLoop mark nrows ncols ms budget g = (appliedPrefix nrows ncols ms budget).foldl mark g := by
+  rw [mergeLoop_eq_foldl_walked]
+  unfold walkedPrefix
+  generalize appliedPrefix nrows ncols ms budget = as
+  induction as generalizing g with
+  | nil => rfl
+  | cons m as ih =>
+    simp only [List.filter_cons, List.foldl_cons]
+    by_cases h : clipArea nrows ncols m > 0
+    · simp only [h, decide_true, if_true, List.foldl_cons]
+      exact ih _ (hP g m hg)
+    · simp only [h, decide_false, Bool.false_eq_true, if_false]
+      rw [hneutral g m hg (by omega)]
+      exact ih g hg
+
+/-- the applied regions are a prefix of the list -/
+theorem applied_prefix (nrows ncols : Nat) (ms : List Region) (budget : Nat) :
+    ∃ rest, ms = appliedPrefix nrows ncols ms budget ++ rest := by
+  induction ms generalizing budget with
+  | nil => exact ⟨[], rfl⟩
+  | cons m ms ih =>
+    simp only [appliedPrefix]
+    split
+    · exact ⟨m :: ms, rfl⟩
+    · obtain ⟨rest, h⟩ := ih (budget - clipArea nrows ncols m)
+      exact ⟨rest, by rw [List.cons_append, ← h]⟩
+
+/-- their clipped areas fit the budget -/
+theorem applied_fits (nrows ncols : Nat) (ms : List Region) (budget : Nat) :
+    areaSum nrows ncols (appliedPrefix nrows ncols ms budget) ≤ budget := by
+  induction ms generalizing budget with
+  | nil => simp [appliedPrefix, areaSum]
+  | cons m ms ih =>
+    simp only [appliedPrefix]
+    split
+    · simp [areaSum]
+    · have := ih (budget - clipArea nrows ncols m)
+      simp only [areaSum, List.map_cons, List.sum_cons] at this ⊢
+      omega
+
+/-- and the prefix is the longest such: the first region left out does not fit any more -/
+theorem applied_maximal (nrows ncols : Nat) (ms : List Region) (budget : Nat) (m : Region) (rest : List Region)
+    (h : ms = appliedPrefix nrows ncols ms budget ++ m :: rest) :
+    areaSum nrows ncols (appliedPrefix nrows ncols ms budget) + clipArea nrows ncols m > budget := by
+  induction ms generalizing budget with
+  | nil => simp [appliedPrefix] at h
+  | cons m0 ms ih =>
+    simp only [appliedPrefix] at h ⊢
+    split
+    · rename_i hgt
+      simp only [hgt, if_true, List.nil_append, List.cons.injEq] at h
+      rw [← h.1]; simp [areaSum]; omega
+    · rename_i hle
+      simp only [hle, if_false, List.cons_append, List.cons.injEq, true_and] at h
+      have := ih (budget - clipArea nrows ncols m0) h
+      simp only [areaSum, List.map_cons, List.sum_cons] at this ⊢
+      omega
+
+/-- **every region is applied when the clipped areas add up to at most the budget** -/
+theorem applied_all (nrows ncols : Nat) (ms : List Region) (budget : Nat)
+    (h : areaSum nrows ncols ms ≤ budget) : appliedPrefix nrows ncols ms budget = ms := by
+  induction ms generalizing budget with
+  | nil => rfl
+  | cons m ms ih =>
+    simp only [areaSum, List.map_cons, List.sum_cons] at h
+    simp only [appliedPrefix]
+    have : ¬ clipArea nrows ncols m > budget := by omega
+    simp only [this, if_false]
+    rw [ih]
+    simp only [areaSum]; omega
+
+/-- conversely, if every region is applied the areas fit -/
+theorem applied_all_iff (nrows ncols : Nat) (ms : List Region) (budget : Nat) :
+    appliedPrefix nrows ncols ms budget = ms ↔ areaSum nrows ncols ms ≤ budget := by
+  constructor
+  · intro h
+    have := applied_fits nrows ncols ms budget
+    rw [h] at this; exact this
+  · exact applied_all nrows ncols ms budget
+
+end Tabula.Sheet
